@@ -263,6 +263,7 @@ def check(repo):
         # reader facts
         nr = Norm(L, None, lambda t: False, subst)
         shapes = c02.edb_shapes(repo, s)
+        shapes = {k_: (("dict", (None, None)) if v_ and v_[0] == "object" else v_) for k_, v_ in shapes.items()}
         ft2, accs = c02.collect_accesses(repo, s, search, shapes)
         read_attrs = set()
         all_reader = {}
@@ -343,6 +344,8 @@ def check(repo):
             _check_sse1_chain(repo, r1, s, enc, fte, L)
         if s.name == "CT14.Pi":
             _check_ct14_levels(repo, r1, s, enc, search, fte, fts)
+        if s.name == "CGKO06.SSE2":
+            _check_sse2_token_range(repo, r1, s, enc, fte, L)
         _check_blocks(repo, r2, s, enc, search, fte, fts, L)
     # exhaustive scans: a loop over data read from the index (a bucket, a list of pointers) examines every element
     r5 = Rule("R1.5", "loops over data read from the index examine every element; size guards accept every storable size")
@@ -405,6 +408,53 @@ def _fmt(t):
     if tag in ("V",):
         return str(t[1])
     return "%s(%s)" % (tag, ", ".join(_fmt(x) if isinstance(x, tuple) else repr(x) for x in t[1:]))
+
+
+def _check_sse2_token_range(repo, r1, s, enc, fte, L):
+    """SSE-2 stores the j-th posting of w under pi(w || j), j = 1 .. |DB(w)| <= n (a keyword occurs at most once per document); the
+    trapdoor therefore has to list the positions of all n counters j = 1 .. n: its range starts where the writer's counter starts
+    and spans param_n values."""
+    trap = s.method("_Trap")
+    ftt = fn_terms(repo, trap)
+    # writer: first value of the counter that is encoded into the stored positions
+    starts = set()
+    for n in fte.cfg.nodes:
+        if n.kind == "stmt" and isinstance(n.stmt, ast.Assign):
+            for t in n.stmt.targets:
+                if isinstance(t, ast.Subscript):
+                    kt = fte.term(t.slice, n.id)
+                    if any(isinstance(x, tuple) and x and x[0] == "elem" and x[1] == ("param", enc.params[2]) for x in walk(kt)):
+                        for x in walk(kt):
+                            if isinstance(x, tuple) and x and x[0] == "counter":
+                                starts.add(x[1])
+    ranges = []
+    for n in ftt.cfg.nodes:
+        if n.kind == "return" and n.stmt.value is not None:
+            t = ftt.term(n.stmt.value, n.id)
+            for x in walk(t):
+                if isinstance(x, tuple) and x and x[0] == "rangevar":
+                    ranges.append(x[1])
+                if isinstance(x, tuple) and x and x[0] == "cont":
+                    for mut in x[3]:
+                        for y in walk(mut):
+                            if isinstance(y, tuple) and y and y[0] == "rangevar":
+                                ranges.append(y[1])
+    ranges = [r_ for i, r_ in enumerate(ranges) if r_ not in ranges[:i]]
+    if not r1.require(len(starts) == 1 and all(isinstance(x, int) for x in starts) and bool(ranges), trap, "SSE-2 token range found",
+                      "SSE-2: cannot relate the counter range of the trapdoor (%s) to the counters under which _Enc stores postings (%s)" % (
+                          [show(("call", "range", r_, ()), maxdepth=4) for r_ in ranges], sorted(starts, key=repr))):
+        return
+    w0 = next(iter(starts))
+    n_docs = L.slot_value("param_n")
+    for r_ in ranges:
+        lo = L.value(r_[0]) if len(r_) >= 2 else L.value(("const", 0))
+        hi = L.value(r_[1]) if len(r_) >= 2 else L.value(r_[0])
+        step_ok = len(r_) < 3 or r_[2] == ("const", 1)
+        ok = step_ok and lo == L.value(("const", w0)) and (hi - lo) == n_docs
+        r1.require(ok, trap, "SSE-2 token covers counters %d..n" % w0,
+                   "SSE-2: _Trap lists the positions of the counters range(%s), but _Enc stores the postings of a keyword under the counters %d .. %d+|DB(w)|-1 with "
+                   "|DB(w)| up to param_n: the last posting(s) of a keyword contained in (nearly) every document are never looked up" % (
+                       ", ".join(show(a, maxdepth=4) for a in r_), w0, w0))
 
 
 def _check_sse1_chain(repo, r1, s, enc, fte, L):
@@ -795,26 +845,41 @@ def _check_blocks(repo, r2, s, enc, search, fte, fts, L):
 
 
 # ----------------------------------------------------------------------------- R1.3 Pi2Lev case split
+class _Branch:
+    """One arm of an if/elif chain with a leading `not` folded away: `if not T: A else: B` is the arm (T, B, A)."""
+
+    def __init__(self, node):
+        self.node = node
+        t, body, orelse = node.test, node.body, node.orelse
+        while isinstance(t, ast.UnaryOp) and isinstance(t.op, ast.Not):
+            t, body, orelse = t.operand, orelse, body
+        self.test, self.body, self.orelse = t, body, orelse
+        self.lineno, self.col_offset = node.lineno, node.col_offset
+
+
 def pi2lev_case_chain(repo, enc):
-    """The if/elif chain of Pi2Lev._Enc that dispatches on len(database[w]) inside the keyword loop -> list of its If nodes (or [])."""
+    """The if/elif chain of Pi2Lev._Enc that dispatches on len(database[w]) inside the keyword loop -> list of _Branch (or [])."""
     ft = fn_terms(repo, enc)
     dbp = ("param", enc.params[2])
     NLEN = ("call", "len", (("sub", dbp, ("elem", dbp)),), ())
     chain = None
     for st in ast.walk(enc.node):
-        if isinstance(st, ast.If) and isinstance(st.test, ast.Compare) and isinstance(getattr(st, "_parent", None), ast.For) and st.orelse and isinstance(st.orelse[0], ast.If):
+        if isinstance(st, ast.If) and isinstance(getattr(st, "_parent", None), ast.For):
+            br = _Branch(st)
+            if not (isinstance(br.test, ast.Compare) and len(br.orelse) == 1 and isinstance(br.orelse[0], ast.If)):
+                continue
             try:
                 nid_ = ft.cfg.nodes_of(st)[0]
-                ops = [ft.term(o, nid_) for o in [st.test.left] + list(st.test.comparators)]
+                ops = [ft.term(o, nid_) for o in [br.test.left] + list(br.test.comparators)]
             except Exception:
                 continue
             if NLEN in ops:
-                chain = st
+                chain = br
     branches = []
     cur = chain
-    while isinstance(cur, ast.If):
+    while cur is not None:
         branches.append(cur)
-        cur = cur.orelse[0] if len(cur.orelse) == 1 and isinstance(cur.orelse[0], ast.If) else None
+        cur = _Branch(cur.orelse[0]) if len(cur.orelse) == 1 and isinstance(cur.orelse[0], ast.If) else None
     return branches
 
 
@@ -838,17 +903,10 @@ def _check_pi2lev_split(repo, r3, s):
     def on_length(st):
         ops = operands_of(st.test, st)
         return ops is not None and NLEN in ops
-    for st in ast.walk(enc.node):
-        if isinstance(st, ast.If) and on_length(st) and \
-                isinstance(getattr(st, "_parent", None), ast.For) and st.orelse and isinstance(st.orelse[0], ast.If):
-            chain = st
+    branches = pi2lev_case_chain(repo, enc)
+    chain = branches[0].node if branches else None
     if not r3.require(chain is not None, enc, "case split", "Pi2Lev._Enc: the small/medium/large case split vanished"):
         return
-    branches = []
-    cur = chain
-    while isinstance(cur, ast.If):
-        branches.append(cur)
-        cur = cur.orelse[0] if len(cur.orelse) == 1 and isinstance(cur.orelse[0], ast.If) else None
 
     def bounds(br):
         """(lower term or None, lower strict?, upper term or None, upper inclusive?) for tests on n = len(database[keyword])"""
@@ -883,12 +941,22 @@ def _check_pi2lev_split(repo, r3, s):
         ok = up is not None and lo is not None and up == lo and up_incl and lo_strict
         r3.require(ok, enc, "boundary %d contiguous" % (i + 1),
                    "Pi2Lev._Enc: case %d ends at n %s %s but case %d starts at n %s %s: list lengths at the boundary are handled by no branch or by the wrong one" % (
-                       i + 1, "<=" if up_incl else "<", up.canon() if up is not None else "?", i + 2, ">" if lo_strict else ">=", lo.canon() if lo is not None else "?"), branches[i + 1])
+                       i + 1, "<=" if up_incl else "<", up.canon() if up is not None else "?", i + 2, ">" if lo_strict else ">=", lo.canon() if lo is not None else "?"), branches[i + 1].node)
+    # the bounds are the capacities of what each case writes: one dictionary block of b identifiers; b' pointers to array blocks of B
+    # identifiers; b' pointers to array blocks of B' pointers to array blocks of B identifiers
+    b_, bp_, B_, Bp_ = (L.slot_value(k) for k in ("param_b", "param_b_prime", "param_B", "param_B_prime"))
+    caps = [("small", b_, "b (one dictionary block)"), ("medium", B_ * bp_, "B * b' (b' pointers to blocks of B identifiers)"),
+            ("large", B_ * Bp_ * bp_, "B * B' * b' (two pointer levels)")]
+    for i, (nm, cap, txt) in enumerate(caps):
+        up = bs[i][2]
+        r3.require(up is not None and up == cap, enc, "%s case bound is its capacity" % nm,
+                   "Pi2Lev._Enc: the %s case takes lists of up to %s postings, but what it writes holds %s: a list in between is written into a block it "
+                   "does not fit (or refused although it fits)" % (nm, up.canon() if up is not None else "?", txt), branches[i].node)
     last = branches[-1]
     r3.require(bool(last.orelse) and isinstance(last.orelse[-1], ast.Raise), enc, "too large refused", "lists beyond the large case are not refused")
     # reservation conditions
     pre = [st for st in ast.walk(enc.node) if isinstance(st, ast.If) and on_length(st)
-           and st is not chain and st not in branches and any(isinstance(x, ast.AugAssign) for x in st.body)]
+           and st is not chain and st not in [b_.node for b_ in branches] and any(isinstance(x, ast.AugAssign) for x in st.body)]
     if r3.require(len(pre) == 2, enc, "slot reservation", "Pi2Lev._Enc: expected two reservation conditions for the array length, found %d" % len(pre)):
         got = []
         for p in pre:
